@@ -348,8 +348,8 @@ def wl_v20(ctx, rng, i):
 
 
 WORKLOADS = [
-    Workload("patterns", wl_patterns, quick=1500, thorough=60000),
-    Workload("grammar20", wl_v20, quick=300, thorough=10000),
+    Workload("patterns", wl_patterns, quick=1500, thorough=200000),
+    Workload("grammar20", wl_v20, quick=300, thorough=40000),
 ]
 
 NEEDED = ["op:%s%s" % (op, n) for op in P.CMP_OPS for n in ("", ":NOT")] + \
